@@ -32,6 +32,15 @@ CLAIMS = {
         text="TLC proves on the trie model that every subset of every commit's record writes (epoch record excluded) leaves the previous epoch's view identical; on the real code the commit batch of the last publish of every replayed behaviour is captured, every prefix and seeded random subsets are applied to deep copies of the database, a second (read-only) instance is opened on each and its complete sweep is validated by TLC against the state before the publish, then against the new state once the epoch record is written."),
     "C14": dict(cat="model_checking", design="5/C14", technique="one TLA+ spec (AkdDirectory) validates the traces of every configuration cell and both compile-feature builds in a single TLC run per history group (digest memo); TLC proves sub-batch/order independence on AkdTrie; split/permuted real insertions validated by TraceTrie",
         text="The specification has no configuration: every output is a function of the history. The same TLC-generated histories are replayed under the parallelism x cache x restart/read-only matrix, both hashing configurations and two harness binaries (with and without greedy_lookup_preload/preload_history/parallel_vrf); all cells of a history are validated in one TLC run whose memo forces identical digests; TLC proves OrderIndependence of batch insertion and every bounded tree is rebuilt from random sub-batch splits with varying parallelism and validated against the canonical table."),
+    "C10": dict(cat="model_checking", design="5/C10", technique="TLA+ spec AkdConcurrent (publish at storage-operation granularity with a fault budget) + TLC (AtomicFailure); exhaustive fault enumeration over the real operation sequence through the Database wrapper; outcomes and follow-up observations validated by TLC (TraceDirectory)",
+        text="TLC proves on AkdConcurrent that a publish in which any one storage operation fails returns an error with database, cache view and transaction state unchanged (and refutes the pinned root-hash-after-commit variant); on the real code every storage operation k of the last publish of sampled TLC-generated histories is made to fail in turn (cached / uncached, sequential / parallel insertion) and TLC validates the error return, the unchanged state seen by the same and by a fresh instance, no transaction left open, and that the retry reaches the state of a publish that never failed.",
+        note=BASE_NOTE + " Faults are Connection errors at storage-operation granularity; the commit batch fails or succeeds as a whole."),
+    "C12": dict(cat="model_checking", design="5/C12", technique="TLA+ spec AkdConcurrent + TLC over all interleavings of 2-3 publishers at storage-operation granularity; TLC-exported interleavings, bounded-preemption and random schedules executed on the real code through a storage-operation gate; call results validated by TLC against the serial specification (TraceDirectory)",
+        text="TLC checks on AkdConcurrent, for all interleavings of two (and three, cached) publishers, that effective calls get distinct consecutive epochs, every returned (epoch, root) pair stays the published pair, the final state is the serial application and no transaction stays open, and refutes each pinned switch; the exported interleavings plus all two-preemption schedules and random three-publisher schedules are executed on clones of a real Directory under the harness's gate and TLC validates the call results and the final sweep against the serial AkdDirectory specification.",
+        note=BASE_NOTE + " Interleavings are explored at storage-operation granularity on a single-threaded runtime."),
+    "C13": dict(cat="model_checking", design="5/C13", technique="TLA+ spec AkdConcurrent (local and remote lagging readers, poller, faults) + TLC (AnswersArePublished); lagging second instances and gate-scheduled overlapping requests on the real code, every answer verified by akd's verifiers and validated by TLC (TraceDirectory, results as of the answered epoch)",
+        text="TLC checks that every reader answer is an error or names a really published (epoch, root) pair assembled only from node versions as of that epoch, over all interleavings of publishers, local readers, a remote reader lagging 0-2 epochs, the poller and one fault, and refutes the pinned unchecked-previous-version switch; on the real code a second cached instance is read after storage moved on by 1-3 epochs (with the real change poller run at different points) and lookups / histories / audits / epoch hashes overlap one or two publishes under TLC-exported and bounded-preemption schedules; TLC validates each verified answer against the specification's state as of the answered epoch, and monotonicity after a notification.",
+        note=BASE_NOTE + " Interleavings are explored at storage-operation granularity on a single-threaded runtime."),
 }
 
 def main():
